@@ -57,6 +57,7 @@ type Spec struct {
 	Package    string            `json:"package"`
 	Overlay    map[string]string `json:"overlay"`
 	Harnesses  []HarnessSpec     `json:"harnesses"`
+	Units      []Unit            `json:"units"`
 	InitExtra  []string          `json:"init_extra"`
 	TaintOK    []string          `json:"taint_ok"`
 	Env        map[string]string `json:"env"`
@@ -68,6 +69,8 @@ type Spec struct {
 	Assumes    []string          `json:"assumptions"`
 	Validation int               `json:"validation_samples"`
 	Workers    int               `json:"workers"`
+	IntTokens  bool              `json:"int_tokens"`
+	BudgetS    map[string]int    `json:"budget_s"`
 }
 
 type KnownFinding struct {
@@ -209,6 +212,24 @@ type runner struct {
 	hpkg     *ssa.Package
 	scratch  string
 	loadSecs float64
+
+	// accumulated over units
+	allRuns   []*harnessRun
+	mstats    machineStats
+	inconc    []string
+	exit      int
+	nviol     int
+	replayed  int
+	seenKF    map[string]bool
+	loadTotal float64
+}
+
+// Unit is one Go package under test with its overlay files and harness functions.
+type Unit struct {
+	ModuleDir string            `json:"module_dir"`
+	Package   string            `json:"package"`
+	Overlay   map[string]string `json:"overlay"`
+	Harnesses []HarnessSpec     `json:"harnesses"`
 }
 
 func (r *runner) loadKnown() {
@@ -331,6 +352,16 @@ func (r *runner) load() error {
 	return nil
 }
 
+func (r *runner) budgetSecs() float64 {
+	if v, ok := r.spec.BudgetS[r.tier]; ok {
+		return float64(v)
+	}
+	if r.tier == "thorough" {
+		return 2400
+	}
+	return 300
+}
+
 func spec2pattern(p string) string {
 	if strings.HasPrefix(p, "./") || p == "." {
 		return p
@@ -392,6 +423,7 @@ func (r *runner) newMachine(dump bool) (*sym.Machine, error) {
 	}
 	m := sym.NewMachine(r.prog, s)
 	m.Trace = r.trace
+	m.IntTokens = r.spec.IntTokens
 	m.InitAllow = r.initAllow
 	m.TaintOK = map[string]bool{}
 	for _, p := range r.spec.TaintOK {
@@ -465,16 +497,65 @@ func (r *runner) instancesOf(h *HarnessSpec) []*instance {
 	return insts
 }
 
+// run executes every unit of the spec (one unit = one Go package with its overlay and
+// harnesses) and writes one evidence file for the property.
 func (r *runner) run() int {
-	defer func() {
+	units := r.spec.Units
+	if len(units) == 0 {
+		units = []Unit{{ModuleDir: r.spec.ModuleDir, Package: r.spec.Package, Overlay: r.spec.Overlay, Harnesses: r.spec.Harnesses}}
+	}
+	for _, u := range units {
+		if u.ModuleDir == "" {
+			u.ModuleDir = "."
+		}
+		r.spec.ModuleDir, r.spec.Package, r.spec.Overlay, r.spec.Harnesses = u.ModuleDir, u.Package, u.Overlay, u.Harnesses
+		r.modDir = filepath.Join(repoDir, u.ModuleDir)
+		r.pkgDir = filepath.Join(r.modDir, u.Package)
+		r.prog, r.hpkg = nil, nil
+		hruns, machines, ok := r.runUnit()
+		if ok {
+			r.collect(hruns)
+		}
+		r.allRuns = append(r.allRuns, hruns...)
+		for _, m := range machines {
+			if m != nil {
+				r.mstats.add(m)
+			}
+		}
+		r.loadTotal += r.loadSecs
 		if r.scratch != "" {
 			os.RemoveAll(r.scratch)
+			r.scratch = ""
 		}
-	}()
+	}
+	for id := range r.accepted {
+		if !r.seenKF[id] {
+			fmt.Printf("NOTE: known finding %s of %s was not reproduced by this run\n", id, r.spec.Property)
+		}
+	}
+	exit := r.exit
+	if exit == 0 && len(r.inconc) > 0 {
+		exit = 2
+	}
+	for _, s := range r.inconc {
+		fmt.Println("INCONCLUSIVE " + s)
+	}
+	r.writeEvidenceFull(r.allRuns, exit, r.inconc, r.nviol, r.replayed)
+	if exit == 0 {
+		tp, ts := 0, 0
+		for _, h := range r.allRuns {
+			tp += h.paths
+			ts += h.symPaths
+		}
+		fmt.Printf("OK property=%s tier=%s harnesses=%d paths=%d (symbolic %d) wall=%.1fs\n", r.spec.Property, r.tier, len(r.allRuns), tp, ts, time.Since(r.t0).Seconds())
+	}
+	return exit
+}
+
+func (r *runner) runUnit() ([]*harnessRun, []*sym.Machine, bool) {
 	if err := r.load(); err != nil {
-		fmt.Printf("INCONCLUSIVE build: %v\n", err)
-		r.writeEvidence(nil, nil, 2, []string{"build: " + err.Error()})
-		return 2
+		r.inconc = append(r.inconc, fmt.Sprintf("build %s: %v", r.spec.Package, err))
+		return nil, nil, false
 	}
 	var hruns []*harnessRun
 	for i := range r.spec.Harnesses {
@@ -487,8 +568,8 @@ func (r *runner) run() int {
 		}
 		fn := r.hpkg.Func(hs.Func)
 		if fn == nil {
-			fmt.Printf("INCONCLUSIVE harness function %s not found\n", hs.Func)
-			return 2
+			r.inconc = append(r.inconc, fmt.Sprintf("harness function %s not found", hs.Func))
+			return nil, nil, false
 		}
 		hr := &harnessRun{spec: hs, fn: fn, outcomes: map[string]int{}, reached: map[string]bool{}, known: map[string]*foundKnown{}}
 		hr.instances = r.instancesOf(hs)
@@ -545,6 +626,10 @@ func (r *runner) run() int {
 
 				var alts []sym.WorkItem
 				j.h.mu.Lock()
+				if !j.h.stopped && time.Since(r.t0).Seconds() > r.budgetSecs() {
+					j.h.stopped = true
+					j.h.inconc = append(j.h.inconc, fmt.Sprintf("%s: wall-clock budget of %.0fs exhausted after %d paths", j.h.spec.Func, r.budgetSecs(), j.h.paths))
+				}
 				skip := j.h.stopped
 				j.h.mu.Unlock()
 				if !skip {
@@ -566,10 +651,10 @@ func (r *runner) run() int {
 	}
 	wg.Wait()
 	if initErr != nil {
-		fmt.Printf("INCONCLUSIVE solver start: %v\n", initErr)
-		return 2
+		r.inconc = append(r.inconc, fmt.Sprintf("solver start: %v", initErr))
+		return hruns, machines, false
 	}
-	return r.finish(hruns, machines)
+	return hruns, machines, true
 }
 
 func (r *runner) record(j job, res *sym.PathResult) []sym.WorkItem {
@@ -656,13 +741,31 @@ func trunc(s string, n int) string {
 	return s
 }
 
-func (r *runner) finish(hruns []*harnessRun, machines []*sym.Machine) int {
+// collect replays and reports what one unit found, accumulating into the runner.
+func (r *runner) collect(hruns []*harnessRun) {
 	var inconc []string
 	exit := 0
 	var violations []*foundViolation
 	replayed := 0
 	type kfLine struct{ id, what string }
 	var kfLines []kfLine
+	if r.seenKF == nil {
+		r.seenKF = map[string]bool{}
+	}
+	defer func() {
+		r.inconc = append(r.inconc, inconc...)
+		if exit > r.exit {
+			r.exit = exit
+		}
+		r.nviol += len(violations)
+		r.replayed += replayed
+		for _, k := range kfLines {
+			if !r.seenKF[k.id] {
+				r.seenKF[k.id] = true
+				fmt.Printf("KNOWN-FINDING: property=%s %s [%s]\n", r.spec.Property, k.what, k.id)
+			}
+		}
+	}()
 	for _, h := range hruns {
 		inconc = append(inconc, h.inconc...)
 		if h.spec.Twin {
@@ -719,34 +822,6 @@ func (r *runner) finish(hruns []*harnessRun, machines []*sym.Machine) int {
 			exit = 1
 		}
 	}
-	seen := map[string]bool{}
-	for _, k := range kfLines {
-		if !seen[k.id] {
-			seen[k.id] = true
-			fmt.Printf("KNOWN-FINDING: property=%s %s [%s]\n", r.spec.Property, k.what, k.id)
-		}
-	}
-	for id := range r.accepted {
-		if !seen[id] {
-			fmt.Printf("NOTE: known finding %s of %s was not reproduced by this run\n", id, r.spec.Property)
-		}
-	}
-	if exit == 0 && len(inconc) > 0 {
-		exit = 2
-	}
-	for _, s := range inconc {
-		fmt.Println("INCONCLUSIVE " + s)
-	}
-	r.writeEvidenceFull(hruns, machines, exit, inconc, len(violations), replayed)
-	if exit == 0 {
-		tp, ts := 0, 0
-		for _, h := range hruns {
-			tp += h.paths
-			ts += h.symPaths
-		}
-		fmt.Printf("OK property=%s tier=%s harnesses=%d paths=%d (symbolic %d) wall=%.1fs\n", r.spec.Property, r.tier, len(hruns), tp, ts, time.Since(r.t0).Seconds())
-	}
-	return exit
 }
 
 func (r *runner) storeReplay(h *harnessRun, v *foundViolation) string {
@@ -773,10 +848,17 @@ func (r *runner) replay(h *harnessRun, model map[string]uint64, params map[strin
 	}
 	re := regexp.MustCompile(`VSYM-OUTCOME \S+ (.*)`)
 	m := re.FindStringSubmatch(out)
+	isPanicLabel := label == "panic" || strings.HasSuffix(label, "/no-panic") || (h.spec.PanicLabel != "" && label == h.spec.PanicLabel)
 	if m == nil {
+		if isPanicLabel && (strings.Contains(out, "out of memory") || strings.Contains(out, "fatal error:") || strings.Contains(out, "panic:")) {
+			return true, "process crashed: " + trunc(out, 200)
+		}
 		return false, "no outcome line: " + trunc(out, 600)
 	}
 	oc := m[1]
+	if strings.HasPrefix(oc, "alloc-exceeded:") {
+		return isPanicLabel, oc
+	}
 	if strings.HasPrefix(oc, "assert-failed:") {
 		return oc == "assert-failed:"+label, oc
 	}
@@ -846,11 +928,31 @@ func (r *runner) replayFile(path string) int {
 	return 1
 }
 
-func (r *runner) writeEvidence(hruns []*harnessRun, machines []*sym.Machine, exit int, inconc []string) {
-	r.writeEvidenceFull(hruns, machines, exit, inconc, 0, 0)
+// machineStats accumulates what the workers of all units did.
+type machineStats struct {
+	st      smt.Stats
+	funcs   map[string]bool
+	stubs   map[string]int
+	tainted map[string]string
 }
 
-func (r *runner) writeEvidenceFull(hruns []*harnessRun, machines []*sym.Machine, exit int, inconc []string, nviol, replayed int) {
+func (a *machineStats) add(m *sym.Machine) {
+	if a.funcs == nil {
+		a.funcs, a.stubs, a.tainted = map[string]bool{}, map[string]int{}, map[string]string{}
+	}
+	a.st.Add(m.Solver.Stats)
+	for f := range m.FuncsEntered {
+		a.funcs[f.String()] = true
+	}
+	for k, v := range m.StubsHit {
+		a.stubs[k] += v
+	}
+	for k, v := range m.Tainted {
+		a.tainted[k] = v
+	}
+}
+
+func (r *runner) writeEvidenceFull(hruns []*harnessRun, exit int, inconc []string, nviol, replayed int) {
 	paths, symPaths, decisions, steps := 0, 0, 0, 0
 	outcomes := map[string]int{}
 	var samples []any
@@ -878,26 +980,8 @@ func (r *runner) writeEvidenceFull(hruns []*harnessRun, machines []*sym.Machine,
 			samples = append(samples, map[string]any{"known_finding": id, "label": k.Label, "model": k.Model, "instance": k.Params})
 		}
 	}
-	var st smt.Stats
-	funcs := map[string]bool{}
+	st, funcs, stubs, tainted := r.mstats.st, r.mstats.funcs, r.mstats.stubs, r.mstats.tainted
 	repoFuncs, depFuncs := 0, 0
-	stubs := map[string]int{}
-	tainted := map[string]string{}
-	for _, m := range machines {
-		if m == nil {
-			continue
-		}
-		st.Add(m.Solver.Stats)
-		for f := range m.FuncsEntered {
-			funcs[f.String()] = true
-		}
-		for k, v := range m.StubsHit {
-			stubs[k] += v
-		}
-		for k, v := range m.Tainted {
-			tainted[k] = v
-		}
-	}
 	var repoList []string
 	for f := range funcs {
 		if strings.Contains(f, "KafScale/platform") || strings.Contains(f, "kafscale/") {
